@@ -1,5 +1,12 @@
 // usage: <bin> <ID> <quick|thorough> [--replay <file>]   (env VERIF_SEED=<u64>, default 1)
 mod check;
+mod routes;
+mod rawhttp;
+mod srv;
+mod spell;
+mod c16;
+mod c17;
+mod grpcx;
 use rnv_engine::{Ctx, Tier};
 fn main() {
     let args: Vec<String> = std::env::args().collect();
